@@ -27,7 +27,10 @@ RULE = (
     "such a file's content; switch the model file between two "
     "contents A/B (B differs in latencies), also while a process that already loaded it is alive (in-process lookup after "
     "the edit); cut a cache file at an offset class {0 bytes, header only (1-16), "
-    "mid-stream, last byte missing} or overwrite it with garbage; N in {2,4,8} processes cold-starting at once. "
+    "mid-stream, last byte missing} or overwrite it with garbage; N in {2,4,8} processes cold-starting at once; one "
+    "cold start in which a simulated competitor creates ~/.osaca/cache between the existence test and the mkdir and "
+    "puts its cache file in place just before the rename (harness-owned interleaving: os.mkdir/os.replace wrapped "
+    "in the child). "
     "Fault tier: every offset class x both cache locations x 3 models enumerated. Oracle: exit status 0, empty "
     "stderr, and the report (timestamp/file name removed) equals the report of a cold run on the same model content "
     "and kernel. Non-trivial: a history with a warm hit after a write, a model edit after caching, or a cut/garbage "
@@ -249,6 +252,38 @@ sys.stdout.write("EDITED" if state["done"] else "NOT-EDITED")
 """
 
 
+# harness-owned interleaving of two cold-starting processes: the competitor creates the home cache directory
+# between our existence test and our mkdir, and has its cache file in place before our rename (os.mkdir and
+# os.replace are wrapped in the child, no OSACA code is touched)
+RACEFS = r"""
+import os, sys, io, shutil
+target = os.path.join(os.path.expanduser("~"), ".osaca", "cache")
+_mkdir, _replace = os.mkdir, os.replace
+hits = []
+def mkdir(path, *a, **k):
+    if os.path.abspath(os.fspath(path)) == target and not os.path.isdir(target):
+        os.makedirs(os.path.dirname(target), exist_ok=True)
+        _mkdir(target)
+        hits.append("mkdir")
+    return _mkdir(path, *a, **k)
+def replace(src, dst, *a, **k):
+    if os.fspath(dst).endswith(".pickle") and not os.path.exists(dst):
+        shutil.copyfile(src, dst)
+        hits.append("replace")
+    return _replace(src, dst, *a, **k)
+os.mkdir, os.replace = mkdir, replace
+import osaca.osaca as oo
+p = oo.create_parser()
+args = p.parse_args(sys.argv[1:])
+oo.check_arguments(args, p)
+out = io.StringIO()
+oo.run(args, output_file=out)
+sys.stdout.write(out.getvalue())
+sys.stderr.write("")
+open(os.environ["VERIF_HITS"], "w").write(",".join(hits))
+"""
+
+
 class Interp:
     """Executes history steps against a sandbox and checks every run."""
 
@@ -392,6 +427,39 @@ class Interp:
             sb.variant[arch] = after
             f["edit_after_cache"] = True
             f["edited_during_load"] = f.get("edited_during_load", 0) + 1
+        elif op == "race_fs":
+            arch = step["arch"]
+            if step.get("home"):
+                if not sb.readonly and not sb.set_readonly(True):
+                    f["skipped_readonly"] += 1
+                    return
+                shutil.rmtree(sb.cache, ignore_errors=True)
+            elif sb.readonly:
+                return
+            else:
+                for x in sb.companion(arch):
+                    os.remove(x)
+            d = tempfile.mkdtemp(prefix="verif-c17f-")
+            p = os.path.join(d, "k.s")
+            with open(p, "w") as fh:
+                fh.write(kernel_code(step["kernel"]))
+            e = env.child_env()
+            e["HOME"] = sb.home
+            e["VERIF_HITS"] = os.path.join(d, "hits")
+            pr = subprocess.run([env.PY, "-c", RACEFS] + argv_for(arch, False) + [p], env=e, capture_output=True,
+                                timeout=600)
+            hits = ""
+            if os.path.exists(e["VERIF_HITS"]):
+                with open(e["VERIF_HITS"]) as fh:
+                    hits = fh.read()
+            shutil.rmtree(d, ignore_errors=True)
+            self.check_run(step, pr.returncode, pr.stdout.decode(errors="replace"),
+                           pr.stderr.decode(errors="replace"), tagx=":" + ("home" if step.get("home") else "companion"))
+            for h_ in hits.split(","):
+                if h_:
+                    f["race_fs_" + h_] = f.get("race_fs_" + h_, 0) + 1
+            f["written"].add((arch, sb.current_hash(arch)))
+            f["checked"].append(len(self.history))
         elif op == "api_set":
             # a user model file (addressed by path) is created or its content replaced
             had = step["name"] in sb.uservariant
@@ -537,6 +605,10 @@ def make_machine(stats, failures_out):
         def edit_during_load(self, arch, k):
             self.step({"op": "edit_during_load", "arch": arch, "kernel": kernels_for(arch)[k]})
 
+        @rule(arch=st.sampled_from(ARCHS), k=st.integers(0, 2), home=st.booleans())
+        def race_fs(self, arch, k, home):
+            self.step({"op": "race_fs", "arch": arch, "kernel": kernels_for(arch)[k], "home": home})
+
         @rule(arch=st.sampled_from(ARCHS))
         def rm_companion(self, arch):
             self.step({"op": "rm_companion", "arch": arch})
@@ -608,6 +680,28 @@ def fault_enumeration(archs, stats, failures):
                 failures[v.bucket] = failure_record(ID, {"history": list(it.history)}, v)
         finally:
             it.close()
+    # a competing cold start creates the cache directory / cache file just before this process does
+    for arch in archs:
+        for home in (True, False):
+            it = Interp()
+            hist = [{"op": "race_fs", "arch": arch, "kernel": kernels_for(arch)[0], "home": home},
+                    {"op": "run", "arch": arch, "kernel": kernels_for(arch)[0], "fixed": False}]
+            try:
+                for s_ in hist:
+                    it.do(s_)
+                for upto in it.facts["checked"]:
+                    stats.evaluations += 1
+                    stats.nontrivial.add(core.case_hash(it.history[:upto]))
+                stats.classes["fault:competitor-wins-" + ("mkdir+rename(home cache)" if home else "rename(companion)")] += 1
+                for k_ in ("race_fs_mkdir", "race_fs_replace"):
+                    if it.facts.get(k_):
+                        stats.classes["fault:interleaving-hit:" + k_[8:]] += 1
+            except Violation as v:
+                stats.evaluations += 1
+                if v.bucket not in failures:
+                    failures[v.bucket] = failure_record(ID, {"history": list(it.history)}, v)
+            finally:
+                it.close()
     # the model file changes while a cold-starting process is between parsing it and writing the cache
     for arch in archs:
         it = Interp()
